@@ -1,23 +1,14 @@
-# Campaign table of the driver: per property the test package, the sub-campaigns with their
-# budgets per tier (case counts, never per-case time limits), and the evidence texts.
-def B(checks, procs=1, timeout=900, **kw):
-    d = {"checks": checks, "procs": procs, "timeout": timeout}
-    d.update(kw)
-    return d
-
+# Campaign table of the driver, assembled from props/<pkg>/campaign.py (SPEC = budgets per tier as case
+# counts, evidence rule text; META = MANIFEST texts). One property per package.
+import glob, importlib.util, os, sys
+ROOT = os.path.dirname(os.path.abspath(__file__))
+sys.path.insert(0, ROOT)
 CAMPAIGNS = {}
-
-CAMPAIGNS["C07"] = {
-    "pkg": "props/c07", "level": "exploration",
-    "rule": ("rapid shape generators per column type (constant, constant delta, small/large deltas, int64 extremes; floats: same, runs, "
-             "few decimals, integers, NaN payloads, +-Inf, -0, subnormals; strings: empty, repetitive, incompressible, long) -> encode -> decode "
-             "must be bit-identical; a case is non-trivial when it has >= 2 values; distinct = hash of (shape, encoder mode byte, values)"),
-    "assumptions": ["exported codec entry points are the ones the engine calls (CoderContext reuse as in the column builder)"],
-    "campaigns": [
-        {"name": "int_block", "run": "^TestIntBlock$", "quick": B(3000, 2), "thorough": B(60000, 3, 3000)},
-        {"name": "time_block", "run": "^TestTimeBlock$", "quick": B(3000, 2), "thorough": B(60000, 3, 3000)},
-        {"name": "float_block", "run": "^TestFloatBlock$", "quick": B(3000, 2), "thorough": B(60000, 3, 3000)},
-        {"name": "bool_block", "run": "^TestBoolBlock$", "quick": B(2000, 1), "thorough": B(30000, 1, 3000)},
-        {"name": "string_block", "run": "^TestStringBlock$", "quick": B(2000, 2), "thorough": B(30000, 3, 3000)},
-    ],
-}
+METAS = {}
+for f in sorted(glob.glob(os.path.join(ROOT, "props", "c*", "campaign.py"))):
+    pid = os.path.basename(os.path.dirname(f)).upper()
+    spec = importlib.util.spec_from_file_location("campaign_" + pid, f)
+    m = importlib.util.module_from_spec(spec)
+    spec.loader.exec_module(m)
+    CAMPAIGNS[pid] = m.SPEC
+    METAS[pid] = m.META
